@@ -8,6 +8,7 @@ executed again from the start with a recorded decision prefix (depth first).
 from __future__ import annotations
 
 import time
+from fractions import Fraction
 
 import z3
 
@@ -118,7 +119,8 @@ class Explorer:
         self.prefer = None      # optional callback(cond) -> True/False/None : deliberate cut (recorded)
         self.cuts = []
         # genericity cut: an *exact* equality test between structurally different symbolic values that the assumptions do not decide is
-        # taken as "not equal" (inputs in general position); the cut is recorded and becomes part of the path condition.  Off by default:
+        # taken as "not equal", and a magnitude guard |x| > c with c <= 1e-3 on a not identically zero x as "x is not tiny" (inputs in
+        # general position); the cut is recorded and becomes part of the path condition.  Off by default:
         # where equalities are what a check is about (index algebra, finite domains) both sides are explored.
         self.generic_eq = False
 
@@ -168,8 +170,11 @@ class Explorer:
                 can_f = vf != "unsat"
                 if vt == "unknown" or vf == "unknown":
                     _unk[0] = True
-                if can_t and can_f and self.generic_eq and cond[0] == "rel" and cond[1] in ("==", "!="):
-                    pref = cond[1] == "!="
+                gpref = None
+                if can_t and can_f and self.generic_eq:
+                    gpref = (cond[1] == "!=") if (cond[0] == "rel" and cond[1] in ("==", "!=")) else tiny_magnitude_pref(cond)
+                if gpref is not None:
+                    pref = gpref
                     self.cuts.append((cond, pref))
                     GENERIC_CUTS[0] += 1
                     _decisions.append((cond, pref, True))
@@ -204,8 +209,11 @@ class Explorer:
 
             old = ctx.decide
             old_c = getattr(ctx, "decide_cond", None)
+            old_abs = getattr(ctx, "abs_as_atom", False)
             ctx.decide = decide
             ctx.decide_cond = decide_cond
+            if self.generic_eq:
+                ctx.abs_as_atom = True
             result = None
             exc = None
             try:
@@ -217,11 +225,29 @@ class Explorer:
             finally:
                 ctx.decide = old
                 ctx.decide_cond = old_c
+                ctx.abs_as_atom = old_abs
             self.paths.append(PathResult(decisions, result, exc, unknown[0]))
         return self.paths
 
 
 GENERIC_CUTS = [0]      # number of genericity cuts taken in this process (reported with the evidence)
+TINY = Fraction(1, 1000)
+
+
+def tiny_magnitude_pref(cond):
+    """A magnitude guard |x| (an abs atom, see Context.abs_as_atom) against a constant of at most 1e-3 in absolute value, for a symbolic x
+    that is not identically zero: the outcome for 'x is not tiny' (True / False), or None if the condition has another shape."""
+    if cond[0] != "rel":
+        return None
+    terms = dict(cond[2].t)
+    const = terms.pop((), None)
+    if const is None or abs(const) > TINY or len(terms) != 1:
+        return None
+    (mono, co), = terms.items()
+    if len(mono) == 1 and mono[0][1] == 1 and mono[0][0].startswith("sqrt!") and abs(co) == 1:
+        big = {">": True, ">=": True, "<": False, "<=": False, "==": False, "!=": True}[cond[1]]
+        return big if co > 0 else not big
+    return None
 
 
 def run_single_path(fn, name="single", generic=False):
